@@ -8,6 +8,8 @@ for p in sorted(glob.glob(os.path.join(ROOT, "props", "c*.py"))):
     m = importlib.util.module_from_spec(spec); spec.loader.exec_module(m)
     props[m.ID] = m
 all_ids = [json.loads(l)["id"] for l in open(os.path.join(ROOT, "properties.jsonl"))]
+claimed = set(open(os.path.join(ROOT, "tools", "claimed.txt")).read().split())
+props = {k: v for k, v in props.items() if k in claimed}
 try:
     hooks = subprocess.check_output(["git", "-C", "/repo", "log", "--format=%H %s"], text=True).splitlines()
     hook_commits = [l.split()[0] for l in hooks if l.split(" ", 1)[1].startswith("verif:")]
